@@ -271,7 +271,9 @@ J_start_end(e) ==
               "x", ClassOf(s), "xday", xday, e.a.how>>
             \o (IF u = "week" /\ ~IsNaive(s)
                     /\ \E dd \in -7..7 : Classify(Z(s.z), <<Ord(s.w[1], s.w[2], s.w[3]) + dd, 43200>>) = "skipped"
-                THEN <<"week-contains-skipped-day">> ELSE <<>>),
+                THEN <<"week-contains-skipped-day">> ELSE <<>>)
+            \* the boundary of the unit lies on the value's own calendar day (no walk over days is needed to reach it)
+            \o <<"boundary-on-own-day", B(<<bw[1], bw[2], bw[3]>> = <<s.w[1], s.w[2], s.w[3]>>)>>,
             CmpOut(e.post, x, "DateTime"))
 
 \* ---- C16 -----------------------------------------------------------------------------
